@@ -155,10 +155,26 @@ def check(run, F, tier):
             r4.violation(hname, "no adoption path reaches %s from an undetermined server" % hname)
             continue
         bad = None
+        lvl = 4 if want == "V3_1_1" else 5
         for p, writes in lst:
             if len(writes) != 1 or writes[0][0] != "protocol_version" or writes[0][1] != ("agg", conn.VERSION, want, ()):
                 bad = (p, writes)
-        if bad:
+            # the decision is taken on the protocol level byte itself - byte 6 of the CONNECT body - and pins it to 4 / 5:
+            # a comparison through a mask or any other function of the byte would adopt other levels too
+            exact = False
+            for k, c in p.cons.items():
+                if c == ("eq", lvl):
+                    ke = conn.expand_all(res["interned"], k)
+                    if ke[0] == "init" and ke[2] and ke[2][-1] == ("ci", 6) and "data_as_slice" in repr(ke[1]):
+                        exact = True
+                    elif ke[0] == "index" and ke[-1] == 6 and "data_as_slice" in repr(ke):
+                        exact = True
+            if not exact and bad is None:
+                bad = (p, [("level-byte", ("c", lvl, "u8"))])
+        if bad and bad[1] and bad[1][0][0] == "level-byte":
+            r4.violation(hname + "/level", "adoption of %s is not decided by `level byte == %d` on the raw byte 6 of the CONNECT body (a masked or derived "
+                         "value would adopt other protocol levels as well)" % (want, lvl), conn.path_summary(bad[0]))
+        elif bad:
             r4.violation(hname, "adoption path to %s writes %s before the handler (expected exactly protocol_version = %s)" % (
                 hname, [(w[0], conn.short(w[1])) for w in bad[1]], want), conn.path_summary(bad[0]))
         else:
